@@ -2,7 +2,7 @@
 # usage: dev/runall.sh [tier] [ids...] : run checks sequentially against /repo, log a summary line each
 tier=${1:-quick}; shift
 ids=${@:-C01 C02 C03 C04 C05 C06 C07 C08 C09 C10 C11 C12 C13 C14 C15 C16 C17 C18 C19 C20}
-cd /verif
+cd "$(dirname "$0")/.."
 for p in $ids; do
   [ -f checks/$(echo $p | tr 'C' 'c').py ] || continue
   s=$(date +%s)
